@@ -20,6 +20,7 @@ import (
 	"math"
 	"os"
 	"sort"
+	"strconv"
 	"strings"
 	"time"
 
@@ -43,19 +44,19 @@ type item struct {
 }
 
 type qspec struct {
-	SQL     string
-	Items   []item // select items (model fields), without _having
-	Having  *item  // the _having field
+	SQL    string
+	Items  []item // select items (model fields), without _having
+	Having *item  // the _having field
 	// simple HAVING `<name> <op> <const>` over a SELECTED output column: the implementation-only
 	// oracle 'rows of the HAVING-free query whose output value satisfies the predicate' applies
-	HavCol  string
-	HavOp   string
-	HavC    float64
+	HavCol   string
+	HavOp    string
+	HavC     float64
 	NoHavSQL string // the same query without its HAVING clause
-	Mem     bool
-	WhereC  int // -1 none
-	Kind    string
-	Bounded bool
+	Mem      bool
+	WhereC   int // -1 none
+	Kind     string
+	Bounded  bool
 	// WhereSQL is a WHERE clause given as text (any dimension predicate, IN-subqueries included);
 	// the model only sees its truth value per source row key, evaluated by the real goexpr
 	WhereSQL string
@@ -379,7 +380,19 @@ func genHaving(r *hk.Rng, all []operand) (*item, string) {
 		c := float64(r.Range(0, 4))
 		op := hk.Pick(r, []string{">", "<=", "=", "<", ">=", "<>"})
 		konst := &gen.Node{Kind: "const", Const: c}
-		form := r.Intn(6)
+		form := r.Intn(7)
+		if len(exact) > 0 && form == 6 {
+			// values that differ only around the seventh significant digit: an exact integer-valued
+			// column scaled by 10^6 against a constant one or a few units off a multiple of 10^6
+			// (= and <> are exact comparisons, not comparisons up to a relative tolerance)
+			a = hk.Pick(r, exact)
+			k := float64(r.Range(0, 4))*1e6 + float64(hk.Pick(r, []int{-7, -1, 0, 1, 3}))
+			if r.Chance(2, 3) {
+				op = hk.Pick(r, []string{"=", "<>"})
+			}
+			return &gen.Node{Kind: "bin", Name: op, Kids: []*gen.Node{{Kind: "bin", Name: "*", Kids: []*gen.Node{a.Node, {Kind: "const", Const: 1e6}}}, {Kind: "const", Const: k}}},
+				fmt.Sprintf("%s * 1000000 %s %s", a.SQL, op, strconv.FormatFloat(k, 'f', -1, 64))
+		}
 		if len(exact) == 0 || form < 3 {
 			return &gen.Node{Kind: "bin", Name: op, Kids: []*gen.Node{a.Node, konst}}, fmt.Sprintf("%s %s %v", a.SQL, op, c)
 		}
